@@ -215,9 +215,41 @@ pub fn load_and_invoke(text: &str) -> &'static str {
     numbers.set_entry(&n, Value::Number(FeelNumber::from_i128(1)));
     strings.set_entry(&n, Value::String("a".into()));
   }
+  // structured values: contexts nested three levels deep whose entries are named like every item component of the model (and
+  // lists of them), as the value of every input data
+  let mut comp_names: Vec<String> = vec![];
+  if let Ok(doc) = roxmltree::Document::parse(text) {
+    for n in doc.descendants().filter(|n| n.has_tag_name("itemComponent")) {
+      if let Some(name) = n.attribute("name") {
+        if !comp_names.contains(&name.to_string()) && comp_names.len() < 8 {
+          comp_names.push(name.to_string());
+        }
+      }
+    }
+  }
+  let mut structured = FeelContext::default();
+  let mut structured_lists = FeelContext::default();
+  if !comp_names.is_empty() {
+    let mut level = Value::Number(FeelNumber::from_i128(1));
+    let mut level_l = Value::Number(FeelNumber::from_i128(1));
+    for _ in 0..3 {
+      let mut c = FeelContext::default();
+      let mut cl = FeelContext::default();
+      for n in &comp_names {
+        c.set_entry(&Name::from(n.as_str()), level.clone());
+        cl.set_entry(&Name::from(n.as_str()), Value::List(dmntk_feel::values::Values::new(vec![level_l.clone()])));
+      }
+      level = Value::Context(c);
+      level_l = Value::Context(cl);
+    }
+    for i in defs.input_data() {
+      structured.set_entry(&Name::from(i.name()), level.clone());
+      structured_lists.set_entry(&Name::from(i.name()), level_l.clone());
+    }
+  }
   let mut nonnull = false;
   for name in &names {
-    for ctx in [&empty, &numbers, &strings] {
+    for ctx in [&empty, &numbers, &strings, &structured, &structured_lists] {
       let v = me.evaluate_invocable(name, ctx);
       if !v.is_null() {
         nonnull = true;
@@ -332,6 +364,49 @@ fn generated_models() -> Vec<(String, String)> {
     out.push((format!("generated/item-definitions-{}", k), x));
   }
   out.push(("generated/decision-tables".to_string(), table_model()));
+  for (k, x) in recursive_type_models().into_iter().enumerate() {
+    out.push((format!("generated/recursive-item-definitions-{}", k), x));
+  }
+  out
+}
+
+/// Legitimate recursive structured types (a tree node with two children of its own type, two types referring to each other
+/// twice, a node with a collection of nodes and a parent), each used in one place at a time: as the type of an input data,
+/// of a decision's output variable, of a knowledge model's parameter, of its result, of a decision service's result.
+fn recursive_type_models() -> Vec<String> {
+  use crate::dmn::{self, Expr, ItemDef};
+  let comp = |name: &str, ty: &str, coll: bool| ItemDef { name: name.into(), type_ref: Some(ty.into()), allowed: None, is_collection: coll, components: vec![] };
+  let def = |name: &str, comps: Vec<ItemDef>| ItemDef { name: name.into(), type_ref: None, allowed: None, is_collection: false, components: comps };
+  let families: Vec<Vec<ItemDef>> = vec![
+    vec![def("tT", vec![comp("value", "number", false), comp("left", "tT", false), comp("right", "tT", false)])],
+    vec![def("tT", vec![comp("b", "tB", false), comp("b2", "tB", false)]), def("tB", vec![comp("a", "tT", false), comp("value", "number", false), comp("a2", "tT", false)])],
+    vec![def("tT", vec![comp("children", "tT", true), comp("parent", "tT", false), comp("value", "number", false)])],
+    vec![def("tT", vec![comp("value", "number", false), comp("next", "tL", false)]), ItemDef { name: "tL".into(), type_ref: Some("tT".into()), allowed: None, is_collection: true, components: vec![] }],
+  ];
+  let mut out = vec![];
+  for items in families {
+    for usage in 0..5 {
+      let mut m = dmn::Model::new("https://verif/c12r", "c12r");
+      m.items = items.clone();
+      let t = |on: bool| if on { "tT".to_string() } else { "number".to_string() };
+      m.inputs.push(dmn::Input { name: "In".into(), type_ref: t(usage == 0) });
+      m.decisions.push(dmn::Decision {
+        name: "Echo".into(),
+        type_ref: if usage == 1 { Some("tT".into()) } else { None },
+        requires: dmn::Requires { inputs: vec!["In".into()], decisions: vec![], knowledge: vec!["B".into()] },
+        logic: Some(Expr::lit("if In = null then B(null) else B(In)")),
+      });
+      m.bkms.push(dmn::Bkm {
+        name: "B".into(),
+        type_ref: if usage == 3 { Some("tT".into()) } else { None },
+        params: vec![("x".into(), if usage == 2 { Some("tT".into()) } else { None })],
+        knowledge: vec![],
+        logic: Expr::lit("x"),
+      });
+      m.services.push(dmn::Service { name: "S".into(), type_ref: if usage == 4 { Some("tT".into()) } else { None }, output_decisions: vec!["Echo".into()], encapsulated_decisions: vec![], input_decisions: vec![], input_data: vec!["In".into()] });
+      out.push(m.to_xml());
+    }
+  }
   out
 }
 
